@@ -797,8 +797,10 @@ func (ts tasks) responses(rpcLog RPCLogger) jmessages {
 		if rsp.ID == nil {
 			rsp.ID = json.RawMessage("null")
 		}
-		if task.m == nil {
-			// No method was ever assigned for this task, so it was never run.
+		if task.ctx == nil {
+			// No context was ever attached to this task, so it never reserved
+			// its ID and was never run. A task whose method was not found did
+			// reserve its ID, and must release it on delivery.
 			rsp.err = errTaskNotExecuted
 		}
 		if task.err == nil {
